@@ -260,6 +260,11 @@ fn ctl_programs() -> usize {
         ("x = (null || { return 4 })\n.", Ok("4")),
         ("x = (true && { abort })\n.", Err("ABORT")),
         ("x = { .a = 1; abort }\n.", Err("ABORT")),
+        // control flow raised while evaluating the message of an abort is not swallowed by it
+        ("abort { abort \"inner\" }", Err("ABORT:inner")),
+        (".seen = true\nabort { if .seen == true { abort \"upstream failure\" } else { \"unexpected\" } }\n.after = true", Err("ABORT:upstream failure")),
+        ("abort { return 5 }", Ok("5")),
+        ("abort \"plain\"", Err("ABORT:plain")),
     ]) + expect_events("ctl_programs", &[
         // nothing is written once `return` / `abort` has been raised
         (".n = 7\n.n, .err = to_int({ if is_null(.v) { return \"skipped\" }; .v })\n.after = true\n\"done\"", Ok("\"skipped\""), "{ \"n\": 7 }"),
@@ -1416,6 +1421,99 @@ fn unix_timestamp_roundtrip() -> usize {
     bad
 }
 
+/// C29 bounded stand-in: round / ceil / floor with a precision return a finite value within 10^-precision
+/// of the input (ceil never below, floor never above).  `extreme` selects the precisions beyond the
+/// range where 10^precision is a finite f64 (recorded separately).
+fn rounding_laws(extreme: bool) -> usize {
+    let unit = if extreme { "rounding_extreme_precision" } else { "rounding_laws" };
+    let mut xs: Vec<f64> = vec![0.0012345678901234568, 3e-19, -3e-19, 1.26e-18, 1.5, 2.5, -1.5, -2.5, 1234.5678, -1234.5678, 0.1, 0.7, 1e-10, 123456789.123, 1e15 + 0.3, 0.0, 9.995, 0.045, 1e-7, 1e300, -1e300, 1.7976931348623157e308];
+    // the extreme class: precisions where 10^precision is not a normal f64, and subnormal inputs (x * 10^p may underflow to 0)
+    if extreme { xs.push(5e-324); xs.push(-5e-324); }
+    let ps: Vec<i64> = if extreme { vec![-400, -330, -309, -1, 0, 309, 330, 400, i64::MAX, i64::MIN] } else { (-6..=22).collect() };
+    let progs = [("round", Prog::new("round(float!(.x), precision: int!(.p))")), ("ceil", Prog::new("ceil(float!(.x), precision: int!(.p))")), ("floor", Prog::new("floor(float!(.x), precision: int!(.p))"))];
+    let mut bad = 0;
+    let mut checked = 0;
+    for x in &xs {
+        for p in &ps {
+            let step = 10f64.powi(-((*p).clamp(-400, 400) as i32));
+            let tol = step * (1.0 + 1e-9) + x.abs() * 4e-16;
+            for (name, prog) in &progs {
+                checked += 1;
+                let got = prog.run(obj(vec![("x", Value::from_f64_or_zero(*x)), ("p", (*p).into())]));
+                let ok = match &got {
+                    Ok(Value::Float(r)) => {
+                        let r = r.into_inner();
+                        r.is_finite() && (r - x).abs() <= tol && match *name { "ceil" => r >= x - x.abs() * 4e-16, "floor" => r <= x + x.abs() * 4e-16, _ => true }
+                    }
+                    _ => false,
+                };
+                if !ok {
+                    bad += 1;
+                    if bad <= 10 { fail(unit, &format!("{name}({x:e}, precision: {p})"), &format!("a finite float within {step:e} of the input"), &format!("{got:?}")); }
+                }
+            }
+        }
+    }
+    eprintln!("{unit}: {checked} calls");
+    bad
+}
+
+const SIGNATURE_CALLS: &[&str] = &[
+    "upcase(.x)", "downcase(.x)", "strlen(.x)", "strip_whitespace(.x)", "camelcase(.x)", "snakecase(.x)", "truncate(.x, 1)",
+    "replace(.x, \"a\", \"b\")", "replace(.x, \"a\", \"b\", count: 0)", "replace(.x, r'a', \"b\", count: 0)", "replace(.x, r'a', \"b\", count: 1)",
+    "split(.x, \",\")", "join(.x, \",\")", "slice(.x, 0)", "slice(.x, 1, 2)", "length(.x)", "keys(.x)", "values(.x)", "flatten(.x)", "compact(.x)", "unique(.x)",
+    "push(.x, 1)", "append(.x, [1])", "contains(.x, \"a\")", "starts_with(.x, \"a\")", "ends_with(.x, \"a\")", "find(.x, \"a\")", "chunks(.x, 1)", "sieve(.x, r'[a-z]')",
+    "to_int(.x)", "to_float(.x)", "to_bool(.x)", "to_string(.x)", "abs(.x)", "ceil(.x)", "floor(.x)", "round(.x)", "mod(.x, 2)", "format_int(.x)", "format_number(.x)", "parse_int(.x)", "parse_float(.x)",
+    "parse_json(.x)", "encode_json(.x)", "merge(.x, {})", "string(.x)", "int(.x)", "float(.x)", "bool(.x)", "array(.x)", "object(.x)", "is_string(.x)", "is_nullish(.x)",
+    "get(.x, [\"a\"])", "set(.x, [\"a\"], 1)", "remove(.x, [\"a\"])", "match(.x, r'a')", "parse_regex(.x, r'(?P<a>a)')", "zip(.x)", "encode_base64(.x)", "decode_base64(.x)",
+    "to_unix_timestamp(.x)", "from_unix_timestamp(.x)", "format_timestamp(.x, \"%F\")", "parse_timestamp(.x, \"%F\")", "tally(.x)", "match_array(.x, r'a')", "includes(.x, 1)", "pop(.x)",
+    "basename(.x)", "dirname(.x)", "parse_key_value(.x)", "parse_url(.x)", "parse_duration(.x, \"s\")", "ip_to_ipv6(.x)", "is_ipv4(.x)", "uuid_from_friendly_id(.x)", "parse_query_string(.x)", "type_def(.x)",
+];
+
+/// C03 bounded stand-in: stdlib calls whose first argument is typed only at runtime.  For every argument
+/// kind the call either errors (handled by `?? "fallback"`) or returns a value that belongs to the kind the
+/// compiler reports for the expression (independent membership predicate); it never panics.
+/// `known` selects the calls recorded as findings (kept apart so that any other call still alarms).
+fn stdlib_signatures(known: bool) -> usize {
+    let unit = if known { "stdlib_signatures_known" } else { "stdlib_signatures" };
+    const KNOWN: &[&str] = &["flatten(.x)", "compact(.x)", "mod(.x, 2)", "set(.x, [\"a\"], 1)", "remove(.x, [\"a\"])", "parse_regex(.x, r'(?P<a>a)')"];
+    let ev = |json: &str| -> Value { serde_json::from_str::<serde_json::Value>(json).map(Value::from).unwrap() };
+    let mut xs: Vec<Value> = ["5", "-3", "\"abc\"", "\"a,b\"", "\"\"", "\"12\"", "\"{\\\"a\\\": 1}\"", "\"http://x/y?a=1\"", "[1, \"a\"]", "[\"a\", \"b\"]", "[[1], [2]]", "[]", "{\"a\": 1}", "{\"a\": {\"b\": null}}", "{}", "null", "true", "1.5", "0"].iter().map(|j| ev(j)).collect();
+    xs.push(Value::Timestamp(Default::default()));
+    let fns = vrl::stdlib::all();
+    let mut bad = 0;
+    let mut checked = 0;
+    for call in SIGNATURE_CALLS {
+        if KNOWN.contains(call) != known { continue }
+        let candidates = [format!("{call} ?? \"fallback\""), call.to_string()];
+        let Some(res) = candidates.iter().find_map(|src| compile(src, &fns).ok()) else {
+            bad += 1; fail(unit, call, "one of `f(..) ?? \"fallback\"` / `f(..)` compiles", "compile error (fix the witness list)"); continue
+        };
+        let reported = res.program.final_type_info().result.kind().clone();
+        for x in &xs {
+            checked += 1;
+            let mut target = TargetValue { value: obj(vec![("x", x.clone())]), metadata: Value::Object(BTreeMap::new()), secrets: Secrets::default() };
+            let got = std::panic::catch_unwind(std::panic::AssertUnwindSafe(|| Runtime::default().resolve(&mut target, &res.program, &TimeZone::default())));
+            match got {
+                Err(_) => { bad += 1; if bad <= 400 { fail(unit, &format!("{call} with .x = {x}"), "no panic", "PANIC"); } }
+                Ok(Ok(v)) => {
+                    if !member(&v, &reported) {
+                        bad += 1;
+                        if bad <= 400 { fail(unit, &format!("{call} with .x = {x}"), &format!("a value of the reported kind `{reported}`"), &v.to_string()); }
+                    }
+                }
+                Ok(Err(_)) => {
+                    // a program accepted without `!` must not fail: the error was either coalesced or the call is infallible
+                    bad += 1;
+                    if bad <= 400 { fail(unit, &format!("{call} with .x = {x}"), "no runtime error (the program has no `!`)", "runtime error"); }
+                }
+            }
+        }
+    }
+    eprintln!("{unit}: {checked} calls");
+    bad
+}
+
 fn main() {
     let unit = std::env::args().nth(1).unwrap_or_default();
     if unit == "stdlib_watchdog_case" {
@@ -1443,6 +1541,10 @@ fn main() {
         "op_typing" => op_typing(),
         "string_arith" => string_arith(),
         "collection_laws" => collection_laws(),
+        "stdlib_signatures" => stdlib_signatures(false),
+        "stdlib_signatures_known" => stdlib_signatures(true),
+        "rounding_laws" => rounding_laws(false),
+        "rounding_extreme_precision" => rounding_laws(true),
         "unix_timestamp_roundtrip" => unix_timestamp_roundtrip(),
         "compile_small_sources" => compile_small_sources(),
         "stdlib_watchdog" => stdlib_watchdog(),
